@@ -195,9 +195,14 @@ META = {
                  "without it; the trace acceptor is proved sound. Tie: real end-to-end traces with peer limits 2..8 (declared limit rewritten at "
                  "the TLS layer), short ID lifetimes, handshake-ID rotation, client rebinding schedules and loss of NEW/RETIRE_CONNECTION_ID "
                  "frames: every NEW_CONNECTION_ID / RETIRE_CONNECTION_ID frame and every datagram's destination ID is checked by an RFC-side "
-                 "PeerView oracle and replayed through the Lean acceptor (verdicts must agree; tampered traces must be rejected by both)."),
+                 "PeerView oracle and replayed through the Lean acceptor (verdicts must agree; tampered traces must be rejected by both). Routing "
+                 "between connections: the mapper model (issued-id map consulted before the initial-id map; lookup_issued_id_ignores_initial_map, "
+                 "swapped order refuted) is bridged to the source (tie G) and exercised with a second client whose original DCID is an ID issued to "
+                 "the first connection; per-path peer IDs (active_path_packets_unretired; dropped write-back refuted) with clients toggling between "
+                 "two addresses while IDs are retired."),
         "note": ("Trusted: Lean kernel (standard axioms), vh-e2e harness, python oracle. No in-crate differential tie for the registries (private to "
-                 "s2n-quic-transport); the path manager is modelled for the active path only. Known finding F14 (expired-unconfirmed IDs unroutable)."),
+                 "s2n-quic-transport). Known finding F14 (expired-unconfirmed IDs unroutable). Observation outside the property text (counted in the "
+                 "evidence, not reported): path-validation probes of non-active paths keep using a peer ID the peer retired."),
         "technique": "Lean 4 invariant proofs over connection-ID registry models + end-to-end frame/routing trace oracle cross-checked with a Lean trace acceptor",
     },
 
